@@ -208,7 +208,10 @@ def run_cycles(fm0, writer, reader, sc, ext, n, pid, binary=False):
         obss.append(build.observe(m))
         cur = m
         if k >= 2:
-            if texts[k - 1] != texts[k - 2]:
+            # text_k is written from m_{k-1}; m_1 may legitimately be an equivalent form of m_0
+            # (e.g. FeatureIDE <eq> read back as two implications), so texts are compared from
+            # cycle 2 on, models from cycle 1 on.
+            if k >= 3 and texts[k - 1] != texts[k - 2]:
                 out.append((f"{pid}.text-not-idempotent", f"cycle {k} text differs from cycle {k - 1}: {_first_diff(texts[k - 2], texts[k - 1])}"))
             if obss[k - 1] != obss[k - 2]:
                 out.append((f"{pid}.model-not-idempotent", f"cycle {k} model differs from cycle {k - 1}: {_first_obs_diff(obss[k - 2], obss[k - 1])}"))
